@@ -329,13 +329,13 @@ def build_system(am, u, forms=None, labels=None, pforms=None):
     # scale=True converts the positions in the caller's array (shared unless safecopy=True, documented): not for read-only / rounded / integer ones
     scaled = sf == 'scaled' and pf in ('float', 'list', 'fortran', 'strided')
     tf, vf = pforms.get('tag', 'int'), pforms.get('vec', 'f8')
-    props = dict(atype=np.array(types, dtype=int), tag=G4.tag_array(len(s), tf), vec=G4.vec_array(vec, vf))
+    props = dict(atype=np.array(types, dtype=int), tag=G4.tag_array(len(s), tf), vec=G4.vec_array(vec, vf, int(pforms.get('group', 1))))
     if labels is not None:
         if tf != 'int':
             labels.update({'props_dtype', 'tag_' + tf})
         if vf != 'f8':
             labels.add('vec_' + vf)
-            if 'decades' in vf and len(s) >= 2:
+            if 'decades' in vf and len(s) >= 2 * int(pforms.get('group', 1)):
                 labels.add('vec_decades')
             if vf != 'decades':
                 labels.add('props_dtype')
@@ -1079,6 +1079,8 @@ def run_post(ctx):
     snap = ctx.snap
     led.add('the system the call was made on', sys0)
     led.add('the answer of the judged call', cur)
+    for nm, x in getattr(ctx, 'extra_outs', ()):
+        led.add(nm, x)
     cur_frozen = G4.freeze(cur)
     pair = G4.share_memory(cur, sys0)
     require(pair is None, lambda: '%s: the returned %s shares memory with %s of the system the call was made on' % (what, pair[0], pair[1]))
@@ -1688,7 +1690,13 @@ def refusal_cases(draw):
     elif kind == 'nonint':
         c = draw(_idx3)
         M = [[float(x) for x in r] for r in M]
-        M[i][c] = M[i][c] + draw(_frac)
+        f = draw(_frac)
+        q = int(round(f * 1000))
+        if q % 3 == 0:
+            # class E: 1e-2 .. 1e-4 off an integer, either side: well outside the rounding window of rotate (numpy.allclose at its
+            # defaults: 1e-8 + 1e-5 |value|, at most 4e-5 here), so still "not integer"
+            f = (1e-2, 1e-3, 1e-4)[(q // 3) % 3] * (1.0 if (q // 9) % 2 else -1.0)
+        M[i][c] = M[i][c] + f
     elif kind in ('hex_on_nonhex', 'hex_sum', 'hex_on_pseudohex'):
         H = draw(hex_matrices())
         if kind == 'hex_sum':
@@ -1730,6 +1738,8 @@ def _oracle_refusal(case):
     kind = case['kind']
     labels.add(kind)
     M = case['uvws']
+    if kind == 'nonint' and max(abs(x - round(x)) for r in M for x in r) < 0.02:
+        labels.add('nonint_near')
     if case['form'] == 'list':
         arg = M
     elif case['form'] == 'tuple' and kind != 'shape':
@@ -1794,14 +1804,20 @@ _setting = st.sampled_from(SETTINGS + ('i', 'f', 't1', 't2'))
 _entry = st.sampled_from(['method', 'method', 'function'])     # System.dump(style, ...) / atomman.dump(style, system, ...)
 
 
+_ssform = st.sampled_from([None] * 5 + ['list', 'tuple', 'array', 'array'])
+
+
 @st.composite
 def centering_cases(draw):
     setting = draw(_setting)
     direction = draw(st.sampled_from(['c2p2c', 'c2p2c', 'p2c2p']))
     basis = draw(_int10) < 7          # True: default check_basis (needs an atom on the lattice site)
+    # check_family (class H: sampled here, enumerated in the clause `options`): with the default True the family has to admit the
+    # setting; with False "non-conventional cells" of any family are converted
+    cf = not (basis and draw(_int10) < 3)
     if direction == 'c2p2c':
-        fam = draw(st.sampled_from(SETTING_FAMILIES[setting])) if basis else draw(_family)
-        u = draw(ucells(family=fam, far_origin=False, allow_lh=False, max_atoms=3))
+        fam = draw(st.sampled_from(SETTING_FAMILIES[setting])) if (basis and cf) else draw(_family)
+        u = draw(ucells(family=fam, far_origin=False, allow_lh=False, max_atoms=3, sensitive=basis and cf, edge_min=6))
         motif = u['atoms']
         if basis:
             motif[0] = [0.0, 0.0, 0.0]
@@ -1818,7 +1834,7 @@ def centering_cases(draw):
         u['atoms'], u['types'], u['vec'] = atoms, types, vec
         tgen = setting in ('t1', 't2') and basis and draw(_int10) < 4
     else:
-        u = draw(ucells(far_origin=False, allow_lh=False, max_atoms=4, origin=not basis))
+        u = draw(ucells(far_origin=False, allow_lh=False, max_atoms=4, origin=not basis, edge_min=6))
         if basis:
             u['atoms'][0] = [0.0, 0.0, 0.0]
             keep = dedupe(u['atoms'])
@@ -1827,8 +1843,12 @@ def centering_cases(draw):
             u['vec'] = u['vec'][:len(keep)]
         tgen = setting in ('t1', 't2') and basis and draw(_int10) < 4
     forms, hist = forms_and_history(draw, u, 'noorigin' if (direction == 'p2c2p' and basis) else 'rigid', lowprec=False)
-    return {'ucell': u, 'setting': setting, 'direction': direction, 'basis': basis, 'generic_t': bool(tgen),
-            'entry': draw(_entry), 'forms': forms, 'hist': hist}
+    case = {'ucell': u, 'setting': setting, 'direction': direction, 'basis': basis, 'generic_t': bool(tgen),
+            'entry': draw(_entry), 'forms': forms, 'hist': hist, 'cf': bool(cf), 'rt': draw(_int10) >= 2, 'ss': draw(_ssform)}
+    case.update(G4.extras(draw, u, 'pure' if post_level(forms) == 'pure' else 'rigid'))
+    if direction == 'c2p2c':
+        case['props'] = dict(case['props'], group=len(CENTERING[setting]))      # the centering copies of a motif atom carry one vector
+    return case
 
 
 def _lattice_is_centered(Vp_back, V, setting, what):
@@ -1861,11 +1881,26 @@ def _dump(am, system, style, entry, **args):
     return system.dump(style, **args)
 
 
+def _convert(am, system, style, entry, rt, what, **args):
+    """the conversion with return_transform=True -> (system, transform).  rt=False (class H, the option left at its default): the
+    call is first made without return_transform, must then return the System alone, and the same System as the call with it"""
+    if not rt:
+        r = _dump(am, system, style, entry, **args)
+        require(isinstance(r, am.System), lambda: '%s without return_transform returned %r' % (what, type(r)))
+    out = _dump(am, system, style, entry, return_transform=True, **args)
+    require(isinstance(out, tuple) and len(out) == 2 and isinstance(out[0], am.System),
+            lambda: '%s with return_transform=True returned %r' % (what, type(out)))
+    if not rt:
+        k = G4.first_difference(G4.freeze((r,)), G4.freeze((out[0],)), bitwise=False)
+        require(k is None, lambda: '%s: the system returned without return_transform differs from the one returned with it (%s)' % (what, k))
+    return out
+
+
 def _c2p_note(unit):
     return '' if unit == 1.0 else ', atol=%g, smallshift=[%g, %g, %g]' % ((1e-8 * unit,) + (0.001 * unit,) * 3)
 
 
-def _c2p(am, system, setting, basis, entry='method', unit=1.0, **kw):
+def _c2p(am, system, setting, basis, entry='method', unit=1.0, rt=True, ss=None, keep=None, what='conventional_to_primitive', **kw):
     """conventional_to_primitive with the documented refusal turned into None.
     unit: the length unit of the cell.  Two documented arguments of the conversion are lengths in working units and are
     handed over in the unit of the cell when that is not 1: `atol` ("Absolute tolerance to use for numpy.isclose ... to check
@@ -1873,16 +1908,22 @@ def _c2p(am, system, setting, basis, entry='method', unit=1.0, **kw):
     and, through Box.identifyfamily, with lattice parameters; default 1e-8) and `smallshift` ("small rigid body shift to apply
     to the atomic positions": added to atoms.pos; default [0.001, 0.001, 0.001]).  Neither default is documented as
     unit-aware.  (rotate's `tol` is compared with box-relative coordinates - "which atoms are inside the box", applied to
-    atoms_prop('pos', scale=True) - so it is dimensionless and is never scaled; primitive_to_conventional has no tolerance.)"""
-    args = dict(setting=setting, return_transform=True)
+    atoms_prop('pos', scale=True) - so it is dimensionless and is never scaled; primitive_to_conventional has no tolerance.)
+    ss: the documented default of smallshift written out as list / tuple / array ("array-like object"); keep: the argument
+    objects handed over are appended as (name, object)"""
+    args = dict(setting=setting)
     if unit != 1.0:
         args['atol'] = 1e-8 * unit
-        args['smallshift'] = [0.001 * unit, 0.001 * unit, 0.001 * unit]
+    if unit != 1.0 or ss:
+        v = [0.001 * unit, 0.001 * unit, 0.001 * unit]
+        args['smallshift'] = tuple(v) if ss == 'tuple' else np.array(v) if ss == 'array' else v
+        if keep is not None:
+            keep.append(('smallshift', args['smallshift']))
     if not basis:
         args['check_basis'] = False
     args.update(kw)
     try:
-        return _dump(am, system, 'conventional_to_primitive', entry, **args)
+        return _convert(am, system, 'conventional_to_primitive', entry, rt, what, **args)
     except AssertionError as e:
         if 'atoms found' in str(e) and 'expected' in str(e):
             return None
@@ -1923,6 +1964,10 @@ def _zero_site_class(V, pos, cent, k, negligible):
 
 
 def oracle_centering(case):
+    return with_units(case, _oracle_centering_keyed)
+
+
+def _oracle_centering_keyed(case):
     """the centering oracle; a violation met after a conventional_to_primitive call on a cell of the K_ZERO class is keyed"""
     state = {}
     try:
@@ -1936,63 +1981,114 @@ def oracle_centering(case):
         raise
 
 
+def _judge_c2p(out, snap, V, o, pos0, setting, what, sc):
+    """the oracle of conventional_to_primitive: out = (primitive system, transform) for the conventional cell (V, o, pos0)"""
+    k = len(CENTERING[setting])
+    N = len(pos0)
+    p, T1 = out
+    T1 = require_rotation(T1, what)
+    require(N % k == 0 and p.natoms == N // k, lambda: '%s: %d atoms, expected %d/%d' % (what, p.natoms, N, k))
+    require_props_present(p, what)
+    Bp, bpo = require_lammps_inside(p, what)
+    _lattice_is_centered(Bp @ T1, V, setting, what)
+    tol = match_tol(V, o, Bp, p.atoms.pos, unit=sc)
+    motif = cm.Motif(V, o, pos0, tol)
+    # every primitive atom lies on a conventional atom (modulo the conventional lattice) and carries the
+    # properties of it or of one of its centering copies (the final wrap of the primitive cell may move an
+    # atom by a primitive lattice vector, so its identity is only defined modulo the centering)
+    reading, rep = map_back(motif, snap, p, T1, o, None, what, tagdiv=k)
+    # every conventional atom is represented by exactly one primitive atom modulo the primitive lattice
+    ppos = np.asarray(p.atoms.pos, dtype=float)
+    back = ppos @ T1 if reading == 1 else (ppos - bpo) @ T1 + o
+    bo_back = bpo @ T1 if reading == 1 else o
+    pm = cm.Motif(Bp @ T1, bo_back, back, tol)
+    m = pm.match(pos0)
+    cnt = pm.multiplicity(m.index)
+    require(len(m.unmatched) == 0 and np.all(cnt == k),
+            lambda: '%s: conventional atoms are not each represented once in the primitive crystal: unmatched %r, hits per primitive atom %r (expected %d)'
+            % (what, m.unmatched.tolist(), cnt.tolist(), k))
+    pt = np.asarray(p.atoms.atype)
+    require(all(int(pt[m.index[j]]) == int(snap['atype'][j]) for j in range(N)),
+            lambda: '%s: a conventional atom maps onto a primitive atom of another type' % what)
+    return T1
+
+
+def _judge_p2c(out, snap, V, o, pos0, setting, what, sc):
+    """the oracle of primitive_to_conventional: out = (conventional system, transform) for the primitive cell (V, o, pos0)"""
+    k = len(CENTERING[setting])
+    N = len(pos0)
+    c, T1 = out
+    T1 = require_rotation(T1, what)
+    require(c.natoms == N * k, lambda: '%s: %d atoms, expected %d x %d' % (what, c.natoms, N, k))
+    require_props_present(c, what)
+    Bc, bco = require_lammps_inside(c, what)
+    # conventional cell vectors are lattice vectors of the primitive lattice, index k
+    Q = cm.lattice_index(Bc @ T1, V)
+    require(np.abs(Q - np.rint(Q)).max() <= 1e-7, lambda: '%s: conventional cell vectors are not lattice vectors of the primitive cell: indices\n%r' % (what, Q))
+    dq = abs(float(np.linalg.det(Q)))
+    require(abs(dq - k) <= 1e-6, lambda: '%s: conventional cell has %.9g primitive volumes, expected %d' % (what, dq, k))
+    motif = cm.Motif(V, o, pos0, match_tol(V, o, Bc, c.atoms.pos, unit=sc))
+    map_back(motif, snap, c, T1, o, k, what)
+    return T1
+
+
 def _oracle_centering(case, state):
     import atomman as am
     u = case['ucell']
     setting = case['setting']
     basis = bool(case['basis'])
+    cf = bool(case.get('cf', True))
+    rt = bool(case.get('rt', True))
+    ss = case.get('ss')
     k = len(CENTERING[setting])
     labels = ucell_labels(u) | {'setting_' + setting, case['direction'], 'basis' if basis else 'nobasis'}
+    if not rt:
+        labels.add('opt_no_transform')
+    if ss:
+        labels.add('opt_smallshift')
+    if basis and not cf:
+        labels.add('opt_no_check_family')
     sys0, M, snap = prepare(am, case, labels)
     V, o, pos0 = M.V, M.o, M.pos
     entry = case.get('entry', 'method')
     labels.add('entry_' + entry)
     hnote = ''
-    if case.get('hist') or case.get('forms'):
-        hnote = ' [unit cell given as %r, after the history %r]' % (case.get('forms') or DEFAULT_FORMS, case.get('hist'))
+    if case.get('hist') or case.get('forms') or case.get('props'):
+        hnote = ' [unit cell given as %r, per-atom properties as %r, after the history %r]' % (
+            case.get('forms') or DEFAULT_FORMS, case.get('props'), case.get('hist'))
+    if not rt:
+        hnote += ' [called without return_transform first]'
     N = len(pos0)
     sc = ucell_scale(u)
     hnote += _scale_note(sc)
     given = 't' if case.get('generic_t') else setting
     if case.get('generic_t'):
         labels.add('generic_t')
+    named, extra_outs = [], []
     if case['direction'] == 'c2p2c':
-        what = "dump('conventional_to_primitive', setting=%r%s%s)%s" % (given, '' if basis else ', check_basis=False', _c2p_note(sc), hnote)
+        extra1 = {'check_family': False} if (basis and not cf) else {}
+        what = "dump('conventional_to_primitive', setting=%r%s%s%s%s)%s" % (
+            given, '' if basis else ', check_basis=False', ', check_family=False' if extra1 else '', _c2p_note(sc),
+            ', smallshift as %s' % ss if ss else '', hnote)
         if sc < 1.0:
             state['zero'] = (V, pos0, CENTERING[setting], k, 1e-3 * match_tol(V, o, unit=sc))
-        out = _c2p(am, sys0, given, basis, entry, unit=sc)
+        out = _c2p(am, sys0, given, basis, entry, unit=sc, rt=rt, ss=ss, keep=named, what=what, **extra1)
+        fresh = []
+        _c2p_args = [0.001 * sc] * 3
+        for nm, a in named:
+            ref = tuple(_c2p_args) if ss == 'tuple' else np.array(_c2p_args) if ss == 'array' else list(_c2p_args)
+            require(args_frozen([(nm, a)]) == args_frozen([(nm, ref)]),
+                    lambda: '%s: the argument %s was modified by the call: %r' % (what, nm, a))
         if out is None:
             require_untouched(sys0, snap, what)      # a refusal leaves its operand alone
             return labels | {'refusal'}
-        p, T1 = out
-        T1 = require_rotation(T1, what)
-        require(N % k == 0 and p.natoms == N // k, lambda: '%s: %d atoms, expected %d/%d' % (what, p.natoms, N, k))
-        require_props_present(p, what)
-        Bp, bpo = require_lammps_inside(p, what)
-        _lattice_is_centered(Bp @ T1, V, setting, what)
-        tol = match_tol(V, o, Bp, p.atoms.pos, unit=sc)
-        motif = cm.Motif(V, o, pos0, tol)
-        # every primitive atom lies on a conventional atom (modulo the conventional lattice) and carries the
-        # properties of it or of one of its centering copies (the final wrap of the primitive cell may move an
-        # atom by a primitive lattice vector, so its identity is only defined modulo the centering)
-        reading, rep = map_back(motif, snap, p, T1, o, None, what, tagdiv=k)
-        # every conventional atom is represented by exactly one primitive atom modulo the primitive lattice
-        ppos = np.asarray(p.atoms.pos, dtype=float)
-        back = ppos @ T1 if reading == 1 else (ppos - bpo) @ T1 + o
-        bo_back = bpo @ T1 if reading == 1 else o
-        pm = cm.Motif(Bp @ T1, bo_back, back, tol)
-        m = pm.match(pos0)
-        cnt = pm.multiplicity(m.index)
-        require(len(m.unmatched) == 0 and np.all(cnt == k),
-                lambda: '%s: conventional atoms are not each represented once in the primitive crystal: unmatched %r, hits per primitive atom %r (expected %d)'
-                % (what, m.unmatched.tolist(), cnt.tolist(), k))
-        pt = np.asarray(p.atoms.atype)
-        require(all(int(pt[m.index[j]]) == int(snap['atype'][j]) for j in range(N)),
-                lambda: '%s: a conventional atom maps onto a primitive atom of another type' % what)
+        T1 = _judge_c2p(out, snap, V, o, pos0, setting, what, sc)
+        p = out[0]
         # and back
         what2 = what + " -> dump('primitive_to_conventional', setting=%r)" % setting
         require_untouched(sys0, snap, what)
-        c2, T2 = _dump(am, p, 'primitive_to_conventional', entry, setting=setting, return_transform=True)
+        out2 = _convert(am, p, 'primitive_to_conventional', entry, rt, what2, setting=setting)
+        c2, T2 = out2
         T2 = require_rotation(T2, what2)
         require(c2.natoms == N, lambda: '%s: %d atoms, the conventional cell had %d' % (what2, c2.natoms, N))
         require_props_present(c2, what2)
@@ -2000,38 +2096,48 @@ def _oracle_centering(case, state):
         _same_params(Bc, V, what2)
         T21 = T2 @ T1
         map_back(cm.Motif(V, o, pos0, match_tol(V, o, Bc, c2.atoms.pos, unit=sc)), snap, c2, T21, o, 1, what2, tagdiv=k)
+        extra_outs.append(('the answer of the return conversion', out2))
+
+        def call(system, keep):
+            return _c2p(am, system, given, basis, entry, unit=sc, rt=True, ss=ss, keep=keep, what=what + ' [called again]', **extra1)
+
+        def judge(o2, M2, snap2, note):
+            _judge_c2p(o2, snap2, M2.V, M2.o, M2.pos, setting, what + note, sc)
     else:
         what = "dump('primitive_to_conventional', setting=%r)%s" % (setting, hnote)
-        c, T1 = _dump(am, sys0, 'primitive_to_conventional', entry, setting=setting, return_transform=True)
+        out = _convert(am, sys0, 'primitive_to_conventional', entry, rt, what, setting=setting)
         require_untouched(sys0, snap, what)
-        T1 = require_rotation(T1, what)
-        require(c.natoms == N * k, lambda: '%s: %d atoms, expected %d x %d' % (what, c.natoms, N, k))
-        require_props_present(c, what)
-        Bc, bco = require_lammps_inside(c, what)
-        # conventional cell vectors are lattice vectors of the primitive lattice, index k
-        Q = cm.lattice_index(Bc @ T1, V)
-        require(np.abs(Q - np.rint(Q)).max() <= 1e-7, lambda: '%s: conventional cell vectors are not lattice vectors of the primitive cell: indices\n%r' % (what, Q))
-        dq = abs(float(np.linalg.det(Q)))
-        require(abs(dq - k) <= 1e-6, lambda: '%s: conventional cell has %.9g primitive volumes, expected %d' % (what, dq, k))
-        motif = cm.Motif(V, o, pos0, match_tol(V, o, Bc, c.atoms.pos, unit=sc))
-        map_back(motif, snap, c, T1, o, k, what)
+        T1 = _judge_p2c(out, snap, V, o, pos0, setting, what, sc)
+        c = out[0]
         # and back
         extra = {} if not basis else {'check_family': False}
         what2 = what + " -> dump('conventional_to_primitive', setting=%r, %s%s)" % (given, 'check_family=False' if basis else 'check_basis=False', _c2p_note(sc))
         if sc < 1.0:
             state['zero'] = (V, pos0, CENTERING['p'], 1, 1e-3 * match_tol(V, o, unit=sc))
-        out = _c2p(am, c, given, basis, entry, unit=sc, **extra)
-        if out is None:
+        out2 = _c2p(am, c, given, basis, entry, unit=sc, rt=rt, ss=ss, what=what2, **extra)
+        if out2 is None:
             return labels | {'refusal'}
-        p2, T2 = out
+        p2, T2 = out2
         T2 = require_rotation(T2, what2)
         require(p2.natoms == N, lambda: '%s: %d atoms, the primitive cell had %d' % (what2, p2.natoms, N))
         require_props_present(p2, what2)
         Bp, bpo = require_lammps_inside(p2, what2)
         _same_params(Bp, V, what2)
         map_back(cm.Motif(V, o, pos0, match_tol(V, o, Bp, p2.atoms.pos, unit=sc)), snap, p2, T2 @ T1, o, 1, what2)
+        extra_outs.append(('the answer of the return conversion', out2))
+
+        def call(system, keep):
+            return _convert(am, system, 'primitive_to_conventional', entry, True, what + ' [called again]', setting=setting)
+
+        def judge(o2, M2, snap2, note):
+            _judge_p2c(o2, snap2, M2.V, M2.o, M2.pos, setting, what + note, sc)
     if setting != 'p':
         labels.add('nt')
+    if case.get('post'):
+        lv = 'pure' if post_level(case.get('forms')) == 'pure' else 'rigid'
+        ctx = PostCtx(am, case, labels, what, sys0, M, snap, out, named, call, judge, lv)
+        ctx.extra_outs = extra_outs
+        run_post(ctx)
     return labels
 
 
